@@ -204,7 +204,7 @@ func CheckC14(c *Ctx) int {
 		scs = append(scs, Scenario{Name: fmt.Sprintf("c14-%d-%d", c.Seed, i), Kind: "backup", Seed: c.Seed*3301 + int64(i), Opts: o, Profile: prof, Gen: &g,
 			Params: map[string]int{"warm": 2 + i%4, "rounds": 5}})
 	}
-	o := RunScenarios(scs, ValidateSpec{KV: true}, filepath.Join(c.WorkDir, "runs"), 14, 4, 10*time.Minute)
+	o := RunScenarios(scs, ValidateSpec{KV: true}, filepath.Join(c.WorkDir, "runs"), 14, 4, c.ChildTimeout())
 	c.Absorb(o)
 	c.Cov["evaluations"] = o.Counters["backups"]
 	c.Cov["distinct_nontrivial"] = o.Counters["backups_with_concurrent_commits"]
@@ -332,7 +332,7 @@ func CheckC15(c *Ctx) int {
 		scs = append(scs, Scenario{Name: fmt.Sprintf("c15-%d-%d", c.Seed, i), Kind: "compact", Seed: c.Seed*1709 + int64(i), Opts: o, Profile: prof, Gen: &g,
 			Params: map[string]int{"limits": c.Pick(10, 40)}})
 	}
-	o := RunScenarios(scs, ValidateSpec{KV: true}, filepath.Join(c.WorkDir, "runs"), 14, 3, 15*time.Minute)
+	o := RunScenarios(scs, ValidateSpec{KV: true}, filepath.Join(c.WorkDir, "runs"), 14, 3, c.ChildTimeout())
 	c.Absorb(o)
 	c.Cov["evaluations"] = o.Counters["compactions"]
 	c.Cov["distinct_nontrivial"] = o.Counters["compactions_with_intermediate_commit"]
